@@ -254,7 +254,10 @@ class FSA:
                 self._out_dict[tail][head] = []
                 self._in_dict[head][tail] = []
 
-            if ignore_redundant and label in self._out_dict[tail][head]:
+            if elist and ignore_redundant:
+                label = [l for l in label
+                         if l not in self._out_dict[tail][head]]
+            elif ignore_redundant and label in self._out_dict[tail][head]:
                 continue
 
             if elist:
